@@ -392,10 +392,14 @@ var exception_catch(var args) {
   
   if (not e->active) { return NULL; }
   
+  /* The exception in flight: comparing it with the filter may itself raise
+  ** and handle exceptions, which goes through this record */
+  var obj = e->obj;
+  
   /* If no Arguments catch all */
   if (len(args) is 0) {
     e->active = false;
-    return e->obj;
+    return obj;
   }
   
   /* Check Exception against Arguments. By position: a filter may name the 
@@ -405,14 +409,16 @@ var exception_catch(var args) {
     /* Objects of different types are different kinds: no comparison is
     ** asked to decide that (it may itself raise for unlike operands) */
     var arg = get(args, $I(i));
-    if (arg is e->obj
-    or (type_of(arg) is type_of(e->obj) and eq(arg, e->obj))) {
+    if (arg is obj
+    or (type_of(arg) is type_of(obj) and eq(arg, obj))) {
+      e->obj = obj;
       e->active = false;
-      return e->obj;
+      return obj;
     }
   }
   
   /* No matches found. Propagate to outward block */
+  e->obj = obj;
   if (e->depth >= 1) {
     longjmp(*Exception_Buffer(e), 1);
   } else {
